@@ -308,10 +308,10 @@ func rollingCfg(r *vs.Rand) scfg {
 	cfg.Children = []childSpec{c}
 	cfg.GenerateSelector = r.Chance(25)
 	cfg.Finalize = r.Chance(45)
-	if r.Chance(30) {
+	if r.Chance(40) {
 		// custom revision-history paths; spec.extra is never set on these parents (an unrecorded earlier path)
 		// ... or paths under two top-level fields, the second of which (metadata.annotations) only exists from the first change on
-		cfg.FieldPaths = [][]string{{"spec.image"}, {"spec.extra", "spec.image"}, {"spec.image", "metadata.annotations"}}[r.Intn(3)]
+		cfg.FieldPaths = [][]string{{"spec.image"}, {"spec.extra", "spec.image"}, {"spec.image", "metadata.annotations"}, {"spec.image", "metadata.annotations"}}[r.Intn(4)]
 	}
 	return cfg
 }
@@ -451,8 +451,8 @@ func runRollout(r *vs.Rand, i int, seed uint64, out *vs.Out, crash bool) {
 			twoKeys = true
 		}
 	}
-	if twoKeys && replicas < 3 {
-		replicas = 3
+	if twoKeys && replicas < 4 {
+		replicas = 4
 	}
 	hookMode := ""
 	if cfg.Finalize && r.Chance(75) {
@@ -489,7 +489,9 @@ func runRollout(r *vs.Rand, i int, seed uint64, out *vs.Out, crash bool) {
 		second = changeAt + 1 + r.Intn(2*replicas+1)
 	}
 	if twoKeys {
-		second = changeAt + 1 + r.Intn(2) // while the first revision still holds children
+		// when the second revision holds two children and the first one still some: the first pending child leaves the second
+		// revision for the third, and three revisions stay alive
+		second = changeAt + 2 + r.Intn(2)
 	}
 	scaleTo := -1
 	if r.Chance(35) {
